@@ -961,6 +961,17 @@ pub fn gen_co_case(bytes: &[u8], cp: &CoProfile) -> CoCase {
         let at = c.choice(stack.len() + 1);
         stack.insert(at, Adapter::Limit(c.weighted(&[(1usize, 35), (2, 35), (3, 20), (5, 10)])));
     }
+    // long sources also get the larger limits ("all limits n"): budgets and
+    // inline capacities inside the consumers sit at 32, 61, 64, 256
+    if n > 12 {
+        for a in stack.iter_mut() {
+            if let Adapter::Limit(l) = a {
+                if c.coin(150) {
+                    *l = [8usize, 33, 62, 64, 95, 96, 200][c.choice(7)];
+                }
+            }
+        }
+    }
     // closure futures
     let mut work: Vec<Vec<LeafSpec>> = Vec::new();
     let mut stage = |c: &mut Cur, fallible: bool| -> Vec<LeafSpec> {
